@@ -568,14 +568,20 @@ def sphdist(ra1, dec1, ra2, dec2, units=["deg", "deg"]):
     dis = 2*np.arcsin(0.5*np.sqrt(dsq))
     w = dsq >= 3.99
     if np.any(w):
-        cross = np.cross(np.array([x1, y1, z1])[w], np.array([x2, y2, z2])[w])
-        crosssq = cross[0]**2 + cross[1]**2 + cross[2]**2
-        dis[w] = np.pi - np.arcsin(np.sqrt(crosssq))
+        # cross product, written out so the inputs can broadcast
+        cx = y1*z2 - z1*y2
+        cy = z1*x2 - x1*z2
+        cz = x1*y2 - y1*x2
+        crosssq = np.broadcast_to(cx**2 + cy**2 + cz**2, dis.shape)
+        dis[w] = np.pi - np.arcsin(np.sqrt(crosssq[w]))
 
     if units_out == "deg":
         np.rad2deg(dis, dis)
 
-    (w,) = np.where((ra1 == ra2) & (dec1 == dec2))
+    w = (
+        (np.atleast_1d(ra1) == np.atleast_1d(ra2))
+        & (np.atleast_1d(dec1) == np.atleast_1d(dec2))
+    )
     dis[w] = 0.0
 
     return dis
